@@ -747,7 +747,7 @@ var pureExternals = []string{
 	"errors.New", "github.com/go-errors/errors.", "fmt.Sprintf", "fmt.Errorf", "fmt.Sprint", "strconv.", "strings.",
 	"(*github.com/sirupsen/logrus.Logger).", "(*github.com/sirupsen/logrus.Entry).", "github.com/sirupsen/logrus.",
 	"time.Now", "time.Unix", "(time.Time).", "time.Since", "math/bits.", "bytes.Equal", "bytes.Compare", "crypto/subtle.", "math.",
-	"(*github.com/go-errors/errors.Error).", "sort.Search", "slices.Contains", "unicode.", "encoding/base64.(*Encoding).EncodedLen", "encoding/base64.(*Encoding).DecodedLen",
+	"(*github.com/go-errors/errors.Error).", "sort.Search", "slices.Contains", "unicode.", "(*encoding/base64.Encoding).DecodeString", "(*encoding/base64.Encoding).EncodeToString",
 }
 
 func (fr *Frame) unknownCall(b *ssa.BasicBlock, st *State, name string, callee *ssa.Function, args []Val, resT types.Type, pos token.Pos) Val {
@@ -777,6 +777,11 @@ func (fr *Frame) unknownCall(b *ssa.BasicBlock, st *State, name string, callee *
 	}
 	res := fr.havocVal(resT, "ext_"+callee.Name())
 	fr.assume(b, fr.typeFacts(res, st))
+	if (name == "errors.New" || name == "fmt.Errorf") && !res.IsAg {
+		// the standard error constructors never return nil
+		fc.trusted[name+": returns a non-nil error"] = true
+		fr.assume(b, sNot(sEq(res.S, "0")))
+	}
 	return res
 }
 
@@ -813,6 +818,17 @@ func (fr *Frame) havocReach(st *State, a Val) {
 		}
 		fc.regVar(h, arr2Sort(sortOf(u.Elem())))
 		fr.wrRow(st, h, sApp("sl_arr", fr.scalar(a)), fc.freshConst("hvrow", arrSort(sortOf(u.Elem()))))
+	case *types.Interface:
+		// a pointer wrapped in an interface (reflection-based decoders take `any`): the object it points to
+		pay, pt := fr.ifaceTarget(a)
+		if pt != nil {
+			if _, again := pt.Underlying().(*types.Interface); !again {
+				fr.havocReach(st, Val{S: pay, Typ: pt})
+			}
+		} else if a.S != "" {
+			fc.assumptions["interface argument of unknown dynamic type passed to a function without model: only fields at the wrapped reference are havocked, in the heaps known so far"] = true
+			fr.havocAnyFields(st, sApp("ipay", fr.scalar(a)))
+		}
 	case *types.Map:
 		fr.regMap(a.Typ)
 		fr.wrRow(st, heapMapP(a.Typ), fr.scalar(a), fc.freshConst("hvrow", arrSort("Bool")))
